@@ -276,6 +276,11 @@ NOT_BUILT = "check not built yet (build in progress, see DESIGN.md section 5); n
 NA = {}
 
 
+TECH_ADDED = {
+    "C11": "; plus one z3 floating-point lane (Float64, round-to-nearest-even) over the real penalty table whose models are replayed on the real function",
+    "C10": "; numbers that pass through pandas are rendered as sentinel numerals and parsed back into their symbolic terms",
+}
+
 # harnesses added after the first version of the table above (appended to the level text of the check)
 ADDED = {
     "C01": " Added: negative families 'tail inside an exon >= 400 bp from every annotated 3' end' and 'a different terminal exon of similar length' (known "
@@ -326,7 +331,7 @@ def main():
                 "engine": c.get("engine", "symx"),
                 "level_claimed": {"category": LEVEL, "text": c["text"] + ADDED.get(pid, ""), "design_ref": "DESIGN.md " + c["design"]},
                 "level_note": c["note"],
-                "technique": c.get("technique", TECH),
+                "technique": c.get("technique", TECH) + TECH_ADDED.get(pid, ""),
             })
         else:
             na.append({"property_id": pid, "reason": NA.get(pid, NOT_BUILT)})
